@@ -1,8 +1,9 @@
 (* Properties_C13.v -- C13: block, complex and mixed-precision formulations solve the same
-   system.  Statements only; proofs: BlockProofs.v, ComplexProofs.v.
+   system.  Statements only; proofs: BlockProofs.v, BlockSpmv.v, ComplexProofs.v.
    The mixed-precision clause (float preconditioner under a double solver reaches 1e-8) is a
    rounding statement: tested by tools/props/C13.py, not proved. *)
-From Amgcl Require Import Scalar QcInst Vec Crs Kernels KernelsProofs MatOps Adapters AdaptersProofs BlockProofs ComplexProofs.
+From Amgcl Require Import Scalar QcInst Vec Crs Kernels KernelsProofs MatOps Adapters AdaptersProofs BlockProofs ComplexProofs
+  BlockInst BlockSpmv.
 Local Open Scope S_scope.
 
 Section Ring.
@@ -34,13 +35,9 @@ Theorem C13_block_row_dense (b : nat) (rs : list (row S)) J i j :
   brget (block_row (total_len rs) b rs) J i j = rget (nth i rs []) (J * b + j).
 Proof. intros Hb Hs. apply (block_row_dense Srt b Hb (total_len rs) rs Hs). apply le_n. Qed.
 
-(* A2 (partial): the operator recovered from the block matrix has the same action A x.
-   FULL STATEMENT (unproved): for the block product itself,
-     of_blocks (bspmv_sums b (to_gcrs (block_adapter b (crs_view A))) (to_blocks b x))
-       = map (fun r => dotrow r x) (rows A)
-   under the same hypotheses plus wf A and length x = ncols A, i.e.
-   spmv_block (block A) (chunks b x) = chunks b (spmv A x).  The block product is tied to the
-   scalar product by the correspondence check (ops block / o.spmv_same) instead. *)
+(* A2, dense form: the operator recovered from the block matrix has the same action A x.
+   (Name kept from round 1; the FULL statement about the block product itself --
+   spmv_block (block A) (chunks b x) = chunks b (spmv A x) -- is C13_block_spmv below.) *)
 Theorem C13_block_action_partial (b : nat) (A : crs S) (x : vec S) i :
   0 < b -> nrows A mod b = 0 -> ncols A mod b = 0 ->
   Forall (fun r => sorted_strict r = true) (rows A) ->
@@ -79,6 +76,69 @@ Theorem C13_rechunk_roundtrip (S : Scalar) b (x : vec S) : 0 < b -> of_blocks (t
 Proof. exact (rechunk_roundtrip b x). Qed.
 Print Assumptions C13_rechunk_roundtrip.
 
+
+(* A2, FULL: the block product itself.  The left-hand side is literally [Kernels.spmv] -- the model
+   of the one spmv_impl of the builtin backend (matrix_ops.hpp:47-116) -- at the Scalar instance
+   [BlockS S0 b] = static_matrix<T,b,b> (BlockInst.v), applied to the model of what
+   adapter::block_matrix<static_matrix<T,b,b>> yields ([block_matrix] = Adapters.block_adapter copied
+   into a CRS of blocks) and to the vectors re-interpreted by backend::reinterpret_as_rhs
+   ([as_rhs]: groups of b scalars as static_matrix<T,b,1>); alpha and beta are scalar_type.
+   It equals the re-interpreted SCALAR spmv for every b > 0 and every scalar matrix with strictly
+   sorted rows whose row count is divisible by b: structurally incomplete blocks, rows of one block
+   row touching different block columns (the shape that exposed seeded C13-1), columns out of range
+   and vectors of any length included.  No hypothesis on the number of columns is needed. *)
+Theorem C13_block_spmv (S0 : Scalar) (b : nat) (Srt : Sring S0) (Hb : 0 < b) (Seqb : seqb_spec S0)
+  (alpha beta : S0) (A : crs S0) (x y : vec S0) :
+  nrows A mod b = 0 -> Forall (fun r => sorted_strict r = true) (rows A) -> length y = nrows A ->
+  spmv (S:=BlockS S0 b) (blk_embed S0 b alpha) (block_matrix S0 b A) (as_rhs S0 b x)
+       (blk_embed S0 b beta) (as_rhs S0 b y)
+  = as_rhs S0 b (spmv alpha A x beta y).
+Proof. exact (block_spmv_full S0 b Srt Hb Seqb alpha beta A x y). Qed.
+Print Assumptions C13_block_spmv.
+
+(* the same for the bare row products (no coefficient, no is_zero test: needs no decidable equality) *)
+Theorem C13_block_spmv_rows (S0 : Scalar) (b : nat) (Srt : Sring S0) (Hb : 0 < b) (A : crs S0) (x : vec S0) :
+  nrows A mod b = 0 -> Forall (fun r => sorted_strict r = true) (rows A) ->
+  map (fun r => dotrow (S:=BlockS S0 b) r (as_rhs S0 b x)) (rows (block_matrix S0 b A))
+  = as_rhs S0 b (map (fun r => dotrow r x) (rows A)).
+Proof. exact (block_spmv_rows S0 b Srt Hb A x). Qed.
+Print Assumptions C13_block_spmv_rows.
+
+(* ... and for backend::residual: the block residual is the re-interpreted scalar residual, so a
+   block formulation that reports / reaches a zero residual has solved the SCALAR system *)
+Theorem C13_block_residual (S0 : Scalar) (b : nat) (Srt : Sring S0) (Hb : 0 < b) (A : crs S0) (f x r : vec S0) :
+  nrows A mod b = 0 -> Forall (fun r => sorted_strict r = true) (rows A) ->
+  length f = nrows A -> length r = nrows A ->
+  residual (S:=BlockS S0 b) (as_rhs S0 b f) (block_matrix S0 b A) (as_rhs S0 b x) (as_rhs S0 b r)
+  = as_rhs S0 b (residual f A x r).
+Proof. exact (block_residual_full S0 b Srt Hb A f x r). Qed.
+Print Assumptions C13_block_residual.
+
+(* A3: backend::builtin_hybrid stores the matrix in block format (copy_matrix = block_matrix of the
+   scalar matrix, builtin_hybrid.hpp:52-56) and keeps scalar vectors; its spmv / residual
+   (matrix_ops.hpp:120-170: reinterpret the vectors, run the block kernel in place) ARE the scalar
+   spmv / residual.  The same statement covers make_block_solver, as_block and as_scalar: the block
+   operator they hand to the inner object acts on re-chunked vectors as the scalar matrix does. *)
+Theorem C13_hybrid_spmv_is_scalar (S0 : Scalar) (b : nat) (Srt : Sring S0) (Hb : 0 < b) (Seqb : seqb_spec S0)
+  (alpha beta : S0) (A : crs S0) (x y : vec S0) :
+  nrows A mod b = 0 -> Forall (fun r => sorted_strict r = true) (rows A) -> length y = nrows A ->
+  hybrid_spmv S0 b alpha (block_matrix S0 b A) x beta y = spmv alpha A x beta y.
+Proof. exact (hybrid_spmv_is_scalar S0 b Srt Hb Seqb alpha beta A x y). Qed.
+Print Assumptions C13_hybrid_spmv_is_scalar.
+
+Theorem C13_hybrid_residual_is_scalar (S0 : Scalar) (b : nat) (Srt : Sring S0) (Hb : 0 < b) (A : crs S0) (f x r : vec S0) :
+  nrows A mod b = 0 -> Forall (fun r => sorted_strict r = true) (rows A) ->
+  length f = nrows A -> length r = nrows A ->
+  hybrid_residual S0 b f (block_matrix S0 b A) x r = residual f A x r.
+Proof. exact (hybrid_residual_is_scalar S0 b Srt Hb A f x r). Qed.
+Print Assumptions C13_hybrid_residual_is_scalar.
+
+(* re-interpretation of a vector whose length is a multiple of b is lossless *)
+Theorem C13_reinterpret_roundtrip (S0 : Scalar) (b : nat) (Hb : 0 < b) (v : vec S0) n :
+  length v = (n * b)%nat -> of_rhs S0 b (as_rhs S0 b v) = v.
+Proof. exact (of_as_rhs S0 b Hb v n). Qed.
+Print Assumptions C13_reinterpret_roundtrip.
+
 (* closed at the exact rationals *)
 Theorem C13_unblock_block_dense_Qc (b : nat) (A : crs QcS) i j :
   0 < b -> nrows A mod b = 0 -> ncols A mod b = 0 ->
@@ -94,6 +154,21 @@ Theorem C13_complex_adapter_action_Qc (A : adapter (@cplx QcS)) (z : list (@cplx
 Proof. exact (C13_complex_adapter_action QcS QcS_ring A z i). Qed.
 Print Assumptions C13_complex_adapter_action_Qc.
 
+
+Theorem C13_block_spmv_Qc (b : nat) (Hb : 0 < b) (alpha beta : QcS) (A : crs QcS) (x y : vec QcS) :
+  nrows A mod b = 0 -> Forall (fun r => sorted_strict r = true) (rows A) -> length y = nrows A ->
+  spmv (S:=BlockS QcS b) (blk_embed QcS b alpha) (block_matrix QcS b A) (as_rhs QcS b x)
+       (blk_embed QcS b beta) (as_rhs QcS b y)
+  = as_rhs QcS b (spmv alpha A x beta y).
+Proof. exact (C13_block_spmv QcS b QcS_ring Hb QcS_eqb alpha beta A x y). Qed.
+Print Assumptions C13_block_spmv_Qc.
+
+Theorem C13_hybrid_spmv_is_scalar_Qc (b : nat) (Hb : 0 < b) (alpha beta : QcS) (A : crs QcS) (x y : vec QcS) :
+  nrows A mod b = 0 -> Forall (fun r => sorted_strict r = true) (rows A) -> length y = nrows A ->
+  hybrid_spmv QcS b alpha (block_matrix QcS b A) x beta y = spmv alpha A x beta y.
+Proof. exact (C13_hybrid_spmv_is_scalar QcS b QcS_ring Hb QcS_eqb alpha beta A x y). Qed.
+Print Assumptions C13_hybrid_spmv_is_scalar_Qc.
+
 (* non-vacuity: a structurally incomplete 2x2-block matrix (any Scalar) *)
 Example C13_nonvacuous (S : Scalar) :
   let A : crs S := mkCrs 4 [[(0, s1); (3, s1)]; [(1, s1)]; [(2, s1)]; [(0, s1); (2, s1); (3, s1)]]%nat in
@@ -102,3 +177,14 @@ Example C13_nonvacuous (S : Scalar) :
   mkG 2 [[(0, [[s1; s0]; [s0; s1]]); (1, [[s0; s1]; [s0; s0]])];
          [(0, [[s0; s0]; [s1; s0]]); (1, [[s1; s0]; [s1; s1]])]]%nat.
 Proof. cbv zeta. split; [repeat constructor|split; reflexivity]. Qed.
+
+(* non-vacuity of C13_block_spmv: the same matrix (row 0 touches block columns 0 and 1, row 1 only
+   block column 0), computed at the block instance over the exact rationals *)
+Example C13_block_spmv_nonvacuous :
+  let A : crs QcS := mkCrs 4 [[(0, s1); (3, s1)]; [(1, s1)]; [(2, s1)]; [(0, s1); (2, s1); (3, s1)]]%nat in
+  let x : vec QcS := [s1; s1 + s1; s1 + s1 + s1; s1 + s1 + s1 + s1] in
+  nrows A mod 2 = 0 /\ Forall (fun r => sorted_strict r = true) (rows A) /\
+  of_rhs QcS 2 (spmv (S:=BlockS QcS 2) (blk_embed QcS 2 s1) (block_matrix QcS 2 A) (as_rhs QcS 2 x)
+                     (blk_embed QcS 2 s0) (as_rhs QcS 2 [s0; s0; s0; s0]))
+  = spmv s1 A x s0 [s0; s0; s0; s0].
+Proof. cbv zeta. split; [reflexivity|]. split; [repeat constructor|]. vm_compute. reflexivity. Qed.
